@@ -189,3 +189,24 @@ CONTRACTS[C + "add_note"] = dict(
     variants=[dict(name="container", params={"self": "CompositionT", "note": "NoteContainer"})],
     notes="domain: compositions of 0..3 tracks with every ordered selection of distinct tracks; the SAME item object is "
           "handed to each selected track's '+' (what '+' does with it is Track.__add__ / add_notes)")
+
+# '+' on a composition: a track is appended as a track, anything else goes to the selected tracks as a note
+CONTRACTS[C + "__add__"] = dict(
+    params={"self": "CompositionT", "value": "TrackPlus"}, returns="any",
+    emits="[('add_track', value)]",
+    callee_events={C + "add_track": {"name": "add_track", "delegation": True}, C + "add_note": {"name": "add_note", "delegation": True}},
+    modifies=["param:self"], properties=["C14"], battery=None,
+    variants=[dict(name="name", params={"self": "CompositionT", "value": "str"}, emits="[('add_note', value)]"),
+              dict(name="container", params={"self": "CompositionT", "value": "NoteContainer"}, emits="[('add_note', value)]"),
+              dict(name="bar", params={"self": "CompositionT", "value": "BarT"}, emits="[('add_note', value)]")],
+    notes="event view: which operation '+' delegates to, with which argument (both are under contract themselves)")
+
+# all bars but the last are full
+CONTRACTS[M + "test_integrity"] = dict(
+    params={"self": "TrackT"}, returns="bool", modifies=[],
+    ensures=[("true-exactly-when-every-bar-but-the-last-is-full",
+              "result == all([(b.length != 0 and len(b.bar) != 0 and b.current_beat >= b.length - 0.001) "
+              "for b in self.bars[:len(self.bars) - 1]])")],
+    split=[{"field_types": {"self.bars": "[" + ",".join(["BarT"] * k) + "]"}} for k in (0, 1, 2, 3)], split_is_domain=True,
+    notes="domain: tracks of 0..3 bars, each bar in ANY state",
+    properties=["C14"], battery="track_integrity")
